@@ -143,6 +143,19 @@ func TestSelf(t *testing.T) {
 	if len(o.Violations) > 0 || o.Desc.(map[string]any)["died"] != false || o.Desc.(map[string]any)["requests"].(int) < 2 {
 		selfFail(t, "undisturbed sha256 extract through the harness server: %+v %v %v", o.Desc, o.Violations, o.Observed)
 	}
+	// ---- long destination names: the harness can make and compare them (an in-place extract never needed a temporary)
+	if got := squeeze("a/blob" + strings.Repeat("x", 20) + ".N"); got != "a/blobx{20}.N" {
+		selfFail(t, "squeeze: %q", got)
+	}
+	ln := ExtractCase{Chunks: ec.Chunks, Layout: ec.Layout, N: 1, K: 0, Inplace: true, Prior: "garbage", PriorSeed: 4, PriorLen: 300, NameLen: 255, DirDepth: 20}
+	o = runExtract(ln)
+	if len(o.Violations) == 0 && (o.Desc.(map[string]any)["died"] != false || o.Desc.(map[string]any)["name_len"] != 255) {
+		selfFail(t, "undisturbed in-place extract to a 255-byte name, 20 directories deep: %+v %v", o.Desc, o.Observed)
+	}
+	ln.Inplace, ln.K, ln.Bad = false, 1, "unlink-dest"
+	if o = runExtract(ln); !sigs(o)["C08:extract:dest-touched"] {
+		selfFail(t, "planted loss of a long-named destination is not reported: %+v %v", o.Desc, o.Violations)
+	}
 	// ---- extract under strace: reading of a log with interleaved threads
 	dest := "/w/out/blob"
 	lg := "7 openat(AT_FDCWD, \"/w/out/.blob.123\", O_RDWR|O_CREAT|O_EXCL|O_CLOEXEC, 0644) = 6\n" +
